@@ -28,7 +28,15 @@ ASSUMPTIONS = [
     "stored objects stay valid and lie outside the maintenance zone during a sequence (expiry is C12); a data provider is registered",
     "when no object matches, no notification is expected (also for multiplicity 0); the first notification of a subscription is "
     "required once the interval has passed since the subscription was made and tolerated earlier",
-    "the periodic attendance of LDMServiceThreads is represented by explicit calls of attend_subscriptions(); threads are C16",
+    "the periodic attendance of LDMServiceThreads is represented by explicit calls of attend_subscriptions() and, in the cases "
+    "of the audit round, by the real loop subscriptions_service() run round by round: threading.Thread / Event are replaced "
+    "inside ldm_service_threads, the wait of a round advances the virtual clock by the timeout the loop asks for; a wait of more "
+    "than one second between two attendances is reported (the notification interval has one-second resolution); real threads "
+    "are C16",
+    "cases on the threaded service and cases that update stored objects are checked by the property oracle only (the model "
+    "describes the reactive service and has no update operation)",
+    "the subscription identifier is an input of the model: the harness gives two requests one key exactly when the code does "
+    "(hash(request): equal requests; requests that differ in a reference value -1 / -2, known finding KF-C14-1)",
 ]
 EXPLANATION = ("theorems over all operation sequences: each attendance invokes exactly the callbacks of the due subscriptions "
                "(registered consumer, matching data = C13 query, multiplicity, interval at one-second resolution) with exactly "
